@@ -154,6 +154,7 @@ type driverResult struct {
 	StateWords int        `json:"state_words"`
 	StateVars  int        `json:"state_vars"`
 	SiteHits   [][2]uint32 `json:"site_hits"`
+	Stalled    bool       `json:"stalled"`
 }
 
 type raceReport struct {
@@ -230,15 +231,17 @@ type simOutcome struct {
 
 func scratchDir() string { return os.Getenv(envScratch) }
 
-func runDriver(dir, mode string, tr *Trace18, raceLog string) (*driverResult, error) {
+func runDriver(dir, mode string, tr *Trace18, raceLog string, extra ...string) (*driverResult, error) {
 	scratch := scratchDir()
 	in := filepath.Join(dir, mode+"-trace.json")
 	out := filepath.Join(dir, mode+"-result.json")
+	os.Remove(out)
 	b, _ := json.Marshal(tr)
 	if err := ioutil.WriteFile(in, b, 0644); err != nil {
 		return nil, err
 	}
-	cmd := exec.Command(filepath.Join(scratch, "driver.bin"), "-mode", mode, "-in", in, "-out", out, "-repo", filepath.Join(scratch, "repo"))
+	args := append([]string{"-mode", mode, "-in", in, "-out", out, "-repo", filepath.Join(scratch, "repo")}, extra...)
+	cmd := exec.Command(filepath.Join(scratch, "driver.bin"), args...)
 	env := os.Environ()
 	gorace := "halt_on_error=0 history_size=3"
 	if raceLog != "" {
@@ -280,13 +283,59 @@ func runDriver(dir, mode string, tr *Trace18, raceLog string) (*driverResult, er
 	return res, nil
 }
 
+// soloPerTask is set in sync-aware mode: every task script is then run alone
+// in its own fresh process, because process-wide state the library
+// synchronises itself (pools, locked caches) would otherwise carry over from
+// one task's solo run to the next and contaminate the reference. In sync-free
+// mode oracle (c) already guarantees that no process-wide state changes.
+var soloPerTask bool
+
+type soloEntry struct {
+	digests  []string
+	opYields []uint64
+	yields   uint64
+	hits     [][2]uint32
+}
+
+var soloCache = map[string]soloEntry{}
+
+func soloRun(dir string, tr *Trace18) (*driverResult, error) {
+	if !soloPerTask {
+		return runDriver(dir, "solo", tr, "")
+	}
+	// a task's solo result depends on its script alone: cached per script
+	// (minimisation re-runs many sub-lists of the same scripts)
+	merged := &driverResult{Mode: "solo", Digests: make([][]string, len(tr.Tasks)), OpYields: make([][]uint64, len(tr.Tasks))}
+	for i := range tr.Tasks {
+		kb, _ := json.Marshal(tr.Tasks[i])
+		key := string(kb)
+		ent, ok := soloCache[key]
+		if !ok {
+			one := &Trace18{Tasks: [][]OpSpec{tr.Tasks[i]}}
+			r, err := runDriver(dir, "solo", one, "", "-task", "0")
+			if err != nil {
+				return nil, err
+			}
+			ent = soloEntry{r.Digests[0], r.OpYields[0], r.Yields, r.SiteHits}
+			if len(soloCache) < 5000 {
+				soloCache[key] = ent
+			}
+		}
+		merged.Digests[i] = ent.digests
+		merged.OpYields[i] = ent.opYields
+		merged.Yields += ent.yields
+		merged.SiteHits = append(merged.SiteHits, ent.hits...)
+	}
+	return merged, nil
+}
+
 // simulate runs solo + sim for one trace and gathers oracle inputs.
 func simulate(dir string, tr *Trace18, soloCache *driverResult) (*simOutcome, error) {
 	os.MkdirAll(dir, 0755)
 	solo := soloCache
 	var err error
 	if solo == nil {
-		solo, err = runDriver(dir, "solo", tr, "")
+		solo, err = soloRun(dir, tr)
 		if err != nil {
 			return nil, err
 		}
@@ -320,6 +369,12 @@ type verdict struct {
 
 // judge applies the three oracles. syncFree says whether oracle (c) applies.
 func judge(o *simOutcome, syncFree bool) (vs []verdict, harness string) {
+	if o.sim.Stalled {
+		// the running task blocked for real and nobody else can run: with
+		// private instances per task this can only be library-level shared
+		// state (a lock left held, a wait never signalled)
+		return []verdict{{"liveness", "liveness:stalled", "under this interleaving no task executed a yield point for 15 s: a task is blocked inside the library (e.g. on a library lock that a panicking or parked call never released); every call returns when run alone"}}, ""
+	}
 	// (c) shared state immutable after init
 	if syncFree && len(o.sim.StateDiff) > 0 {
 		vs = append(vs, verdict{"state", "state:" + o.sim.StateDiff[0],
@@ -387,7 +442,7 @@ func judge(o *simOutcome, syncFree bool) (vs []verdict, harness string) {
 
 var opKinds = []string{"qr", "dm", "ean13", "ean8", "upca", "upce", "code39", "code93", "code128", "itf", "codabar", "qrmulti", "aztec", "rs", "bin", "eci", "eanext", "qrdmg", "dmdmg", "aztecgen"}
 
-func gen18(c *kit.Ctx, numSites int) *Trace18 {
+func gen18(c *kit.Ctx, numSites int, syncFree bool) *Trace18 {
 	r := c.RNG
 	tr := &Trace18{}
 	raceHunt := r.Chance(3, 4)
@@ -397,6 +452,9 @@ func gen18(c *kit.Ctx, numSites int) *Trace18 {
 		if r.Chance(1, 2) {
 			k = r.Range(9, 24)
 		}
+	}
+	if !syncFree && k > 8 {
+		k = r.Range(2, 8) // sync-aware mode runs every task's solo reference in its own process
 	}
 	// swarm: per-run workload mix
 	weights := make([]int, len(opKinds))
@@ -457,15 +515,29 @@ func gen18(c *kit.Ctx, numSites int) *Trace18 {
 // are drawn uniformly from the distinct sites the workload executes (so a
 // rarely executed site such as a generator-cache fill is as likely as a hot
 // loop), and the switch probability aims at a few hundred switches.
-func chooseSites(r *kit.RNG, s *SchedCfg, solo *driverResult) {
+func chooseSites(r *kit.RNG, s *SchedCfg, solo *driverResult, syncSites map[int32]bool) {
 	if s.Mode != 1 || len(solo.SiteHits) == 0 {
 		return
+	}
+	pool := solo.SiteHits
+	if len(syncSites) > 0 && r.Chance(2, 3) {
+		// the library synchronises something: most site-targeted runs put
+		// their switches right before / after its sync and atomic operations
+		var sp [][2]uint32
+		for _, h := range solo.SiteHits {
+			if syncSites[int32(h[0])] {
+				sp = append(sp, h)
+			}
+		}
+		if len(sp) > 0 {
+			pool = sp
+		}
 	}
 	n := len(s.Sites)
 	s.Sites = s.Sites[:0]
 	var hits uint64
 	for i := 0; i < n; i++ {
-		h := solo.SiteHits[r.Intn(len(solo.SiteHits))]
+		h := pool[r.Intn(len(pool))]
 		s.Sites = append(s.Sites, int32(h[0]))
 		hits += uint64(h[1])
 	}
@@ -483,9 +555,10 @@ func chooseSites(r *kit.RNG, s *SchedCfg, solo *driverResult) {
 // ---------------------------------------------------------------- the run
 
 type env18 struct {
-	syncFree bool
-	numSites int
-	census   *rewrite.Census
+	syncFree  bool
+	numSites  int
+	census    *rewrite.Census
+	syncSites map[int32]bool // sites adjacent to a sync / sync/atomic operation
 }
 
 func loadEnv() (*env18, error) {
@@ -493,7 +566,21 @@ func loadEnv() (*env18, error) {
 	if err != nil {
 		return nil, err
 	}
-	return &env18{syncFree: len(c.SyncImports) == 0 && len(c.Atomic) == 0 && len(c.Unsupported) == 0, numSites: c.Sites, census: c}, nil
+	e := &env18{syncFree: len(c.SyncImports) == 0 && len(c.Atomic) == 0 && len(c.Unsupported) == 0, numSites: c.Sites, census: c, syncSites: map[int32]bool{}}
+	if !e.syncFree {
+		var ss []struct {
+			ID   int32  `json:"id"`
+			Kind string `json:"kind"`
+		}
+		if b, err := ioutil.ReadFile(filepath.Join(scratchDir(), "repo", "sites.json")); err == nil && json.Unmarshal(b, &ss) == nil {
+			for _, x := range ss {
+				if x.Kind == "sync" {
+					e.syncSites[x.ID] = true
+				}
+			}
+		}
+	}
+	return e, nil
 }
 
 func runDir(c *kit.Ctx, tag string) string {
@@ -519,15 +606,16 @@ func pairsOf(log []Switch) map[[2]int32]bool {
 var minimised = map[string]bool{}
 
 func run18(c *kit.Ctx, e *env18) {
-	tr := gen18(c, e.numSites)
+	tr := gen18(c, e.numSites, e.syncFree)
 	dir := runDir(c, "a")
 	defer os.RemoveAll(dir)
-	solo, err := runDriver(mk(dir), "solo", tr, "")
+	soloPerTask = !e.syncFree
+	solo, err := soloRun(mk(dir), tr)
 	if err != nil {
 		c.Fatal(err.Error())
 		return
 	}
-	chooseSites(c.RNG, &tr.Sched, solo)
+	chooseSites(c.RNG, &tr.Sched, solo, e.syncSites)
 	o, err := simulate(dir, tr, solo)
 	if err != nil {
 		c.Fatal(err.Error())
@@ -547,7 +635,7 @@ func run18(c *kit.Ctx, e *env18) {
 		return
 	}
 	first := 0
-	if !minimised[vs[0].key] {
+	if !minimised[vs[0].key] && len(minimised) < 2 {
 		// minimise once per violation key and worker process
 		minimised[vs[0].key] = true
 		first = 1
@@ -601,8 +689,15 @@ func account(c *kit.Ctx, tr *Trace18, o *simOutcome) {
 
 // still reports whether the candidate trace still shows a violation of the
 // same class/key.
+// minDeadline bounds the wall time spent minimising one violation (a
+// reporting convenience: the un-minimised schedule already replays exactly).
+var minDeadline time.Time
+
 func still(dir string, e *env18, tr *Trace18, v verdict, tries int) (bool, *simOutcome) {
 	for i := 0; i < tries; i++ {
+		if !minDeadline.IsZero() && time.Now().After(minDeadline) {
+			return false, nil
+		}
 		o, err := simulate(dir, tr, nil)
 		if err != nil {
 			return false, nil
@@ -620,6 +715,8 @@ func still(dir string, e *env18, tr *Trace18, v verdict, tries int) (bool, *simO
 func minimise18(c *kit.Ctx, e *env18, tr *Trace18, o *simOutcome, v verdict) *Trace18 {
 	dir := runDir(c, "min")
 	defer os.RemoveAll(dir)
+	minDeadline = time.Now().Add(150 * time.Second)
+	defer func() { minDeadline = time.Time{} }()
 	tries := 1
 	if v.class == "race" {
 		tries = 3
@@ -725,11 +822,14 @@ func replay18(c *kit.Ctx, e *env18, raw json.RawMessage) {
 		c.Fatal("bad trace: " + err.Error())
 		return
 	}
+	soloPerTask = !e.syncFree
 	dir := runDir(c, fmt.Sprintf("replay-%d", os.Getpid()))
 	defer os.RemoveAll(dir)
 	tries := 1
-	if tr.RaceKey != "" {
-		tries = 8 // sync.Pool edges inside fmt can hide (never invent) a race: DESIGN.md 4.5
+	if tr.RaceKey != "" || !e.syncFree {
+		// sync.Pool edges inside fmt can hide (never invent) a race (DESIGN.md 4.5); and
+		// a library that uses sync.Pool itself is not fully deterministic under any scheduler
+		tries = 8
 	}
 	for i := 0; i < tries; i++ {
 		o, err := simulate(dir, tr, nil)
@@ -809,6 +909,7 @@ func C18() *kit.Spec {
 		},
 		FaultKinds:  []string{"context_switch"},
 		Workers:     2 * runtime.NumCPU(), // runs mostly wait for futex wake-ups
+		ReplayAttempts: 2, // a library using sync.Pool is not fully deterministic under any scheduler
 		SimTimeNote: "none: the library has no timers; logical steps = yield points executed under the scheduler",
 		NumRuns: func(tier string) int {
 			if tier == "thorough" {
